@@ -1,4 +1,24 @@
-"""C05  Steady state returned by solve_steady satisfies the steady-state equations."""
+"""C05  Steady state returned by solve_steady satisfies the steady-state equations.
+
+Pipeline: translator/steady.py -> gen/SteadyGen.v (cell formulas, constants, stacked linear systems);
+model/Steady.v (hand model defined in terms of the generated fragments); proofs/SteadyProofs.v; props/C05.v.
+Correspondence: generated models are run through Simultaneous.steady in fresh single-threaded interpreters with
+the solver (steadiers.solver_dispatcher.neqs_levenberg), _resolve_steady_wrt, blazer.blaze and
+fords.steadiers.solve_steady_linear_* wrapped from outside; one Coq case per parameter variant compares, bit for
+bit, wrt/fixed qids, per block the index masks, the initial guess and eval_func(final_guess), and the stored
+levels/changes after write-back; for linear models the write-back and the lstsq contract.
+Falsifier: the property on the public getters with an independent evaluator of the SOURCE equations.
+
+Behaviour seen while building (none of it contradicts the property text on an admissible input, nothing reported):
+  * the solver's absolute tolerance lets it report success at degenerate points of growth models (levels ~1e-13,
+    or non-zero changes in a stationary product-form model); such paths satisfy the equations at t and t+1 only
+    -> counted as `every_date_partial_misses` in the evidence, see C05_two_dates_do_not_suffice;
+  * split_into_blocks=True together with a fix_level + endogenize plan raises RuntimeError(StopIteration) inside
+    blazer (non-square incidence matrix); the default for such plans is split_into_blocks=False;
+  * _steady_linear delogarithmizes the zero-shift vector at the positions given by the log-variables' QIDS
+    (simultaneous/_logly.py::_apply) and _steady_nonlinear picks block equations by wrt.equations[eid]: both rely on
+    transition/measurement variables and equations being numbered first; modelled as coded;
+  * FlatSteadyEvaluator.__init__ resets the changes of ALL quantities of the variant (also fixed ones)."""
 from __future__ import annotations
 
 import ast
